@@ -104,6 +104,28 @@ func buildActorDir(c *core.Ctx, a *c16Actor, dir string, helper string) error {
 	if _, _, err := ch.WriteLayout("plain.layout", a.owner); err != nil {
 		return err
 	}
+	// a nesting of three layouts, and a tree with a directory symlink cycle
+	{
+		fast := gen.Fast(Pool(c))
+		marker := filepath.Join(dir, "nested-marker")
+		// (no inspections: inspections of sublayouts run in the process's working directory, which all goroutines share)
+		grand := &gen.Nest{Level: 2, Signer: fast[(a.id+4)%len(fast)], Prep: fast[(a.id+5)%len(fast)], Sub: fast[(a.id+6)%len(fast)], Final: fast[(a.id+9)%len(fast)], Expires: "2099-01-01T00:00:00Z"}
+		child := &gen.Nest{Level: 1, Signer: a.key, Prep: fast[(a.id+3)%len(fast)], Sub: fast[(a.id+4)%len(fast)], Final: fast[(a.id+7)%len(fast)], Child: grand}
+		_ = marker
+		rootN := &gen.Nest{Level: 0, Signer: a.owner, Prep: a.other, Sub: a.key, Final: fast[(a.id+8)%len(fast)], Child: child, Expires: "2099-01-01T00:00:00Z"}
+		child.Expires = "2099-01-01T00:00:00Z"
+		rootN.Build()
+		md, err := rootN.WriteLinks(filepath.Join(dir, "nested", "links"), a.id%2 == 1)
+		if err != nil {
+			return err
+		}
+		if err := md.Dump(filepath.Join(dir, "nested", "root.layout")); err != nil {
+			return err
+		}
+		os.MkdirAll(filepath.Join(dir, "cycle", "a", "b"), 0755)
+		os.WriteFile(filepath.Join(dir, "cycle", "a", "file"), []byte("x"), 0644)
+		os.Symlink("..", filepath.Join(dir, "cycle", "a", "b", "back-to-a"))
+	}
 	return nil
 }
 
@@ -306,6 +328,25 @@ func runOps(c *core.Ctx, a *c16Actor, dir string, rounds int, census bool) []opR
 			}
 			return normJSON(sum.GetPayload())
 		})
+		guard("InTotoVerify(nested layouts)", func() string {
+			md, err := intoto.LoadMetadata(filepath.Join(dir, "nested", "root.layout"))
+			if err != nil {
+				return errClassOf(err)
+			}
+			sum, err := intoto.InTotoVerify(md, gen.KeyMap(a.owner), filepath.Join(dir, "nested", "links"), "sum", map[string]string{}, nil, false)
+			if err != nil {
+				return "error: " + strings.ReplaceAll(err.Error(), dir, "<own dir>")
+			}
+			return normJSON(sum.GetPayload())
+		})
+		guard("RecordArtifacts(symlink cycle)", func() string {
+			m, err := intoto.RecordArtifacts([]string{filepath.Join(dir, "cycle")}, []string{"sha256"}, nil, nil, false, true)
+			if err != nil {
+				// the whole message: it must not talk about another goroutine's tree
+				return "error: " + strings.ReplaceAll(err.Error(), dir, "<own dir>")
+			}
+			return jsonOf(m)
+		})
 		guard("InTotoVerifyWithDirectory", func() string {
 			md, err := intoto.LoadMetadata(filepath.Join(chainDir, "with-inspection.layout"))
 			if err != nil {
@@ -452,6 +493,53 @@ func runC16(c *core.Ctx) {
 			c.Violation("a library call wrote into the caller's shared read-only list of intermediate certificates (element "+fmt.Sprint(i)+" of its backing array)", id, map[string]any{"goroutines": G, "element": i})
 			break
 		}
+	}
+	// ---- burst: many goroutines verify nested supply chains at the same time, again and again -------
+	{
+		verifyNested := func(a *c16Actor) string {
+			dir := a.dirs[0]
+			md, err := intoto.LoadMetadata(filepath.Join(dir, "nested", "root.layout"))
+			if err != nil {
+				return errClassOf(err)
+			}
+			sum, err := intoto.InTotoVerify(md, gen.KeyMap(a.owner), filepath.Join(dir, "nested", "links"), "sum", map[string]string{}, nil, false)
+			if err != nil {
+				return "error: " + strings.ReplaceAll(err.Error(), dir, "<own dir>")
+			}
+			return normJSON(sum.GetPayload())
+		}
+		const burstG, burstN = 24, 12
+		got := make([][]string, burstG)
+		var bw sync.WaitGroup
+		go2 := make(chan struct{})
+		for j := 0; j < burstG; j++ {
+			bw.Add(1)
+			go func(j int) {
+				defer bw.Done()
+				defer func() {
+					if r := recover(); r != nil {
+						got[j] = append(got[j], "PANIC: "+fmt.Sprint(r))
+					}
+				}()
+				<-go2
+				for n := 0; n < burstN; n++ {
+					got[j] = append(got[j], verifyNested(actors[j%G]))
+				}
+			}(j)
+		}
+		close(go2)
+		bw.Wait()
+		bad := 0
+		for j := 0; j < burstG; j++ {
+			want := verifyNested(actors[j%G]) // sequential now
+			for n, r := range got[j] {
+				if r != want && bad < 3 {
+					bad++
+					c.Violation("concurrent InTotoVerify(nested layouts, burst of 24 goroutines) returns another result than the same call made sequentially", id, map[string]any{"goroutine": j, "iteration": n, "concurrent": r, "sequential": want})
+				}
+			}
+		}
+		c.Obs("burst_verifications_of_nested_layouts", int64(burstG*burstN))
 	}
 	// ---- sequential pass ------------------------------------------------------------
 	censusOn = false
@@ -604,7 +692,7 @@ func init() {
 	core.Register(&core.Property{
 		ID:    "C16",
 		Level: "exploration",
-		Rule: "rounds = fresh worker processes (quick 16, thorough 48); round k uses G in {2,4,8,16,32} goroutines and GOMAXPROCS in {2,4,16}; every goroutine owns a generated tree (half with file and directory symlinks, half with 2 MiB CRLF files), keys, a chain directory and metadata files, and runs 1 (quick) / 3 (thorough) times the list LoadMetadata of layout and links (first library operation of the process: cold caches), RecordArtifacts with and without normalisation, Metablock Sign/Dump/Load/Verify and Envelope SetPayload/Sign/Dump/Load/Verify with the file rewritten four times under the same base name in every goroutine's own directory, InTotoRun (vhelper), InTotoRecordStart/Stop, InTotoMatchProducts, InTotoVerify (no inspections; two stray links by unauthorized keys for the first step; layout with its own intermediate CA; the caller's list of additional intermediates is one read-only slice with spare capacity shared by all goroutines), InTotoVerifyWithDirectory (own run dir, globally unique inspection name), SubstituteParameters; then the same lists are executed sequentially on identical copies of the data and compared result by result. Even shards run the -race build with GORACE=halt_on_error=0 log_path=...: report blocks are counted from the log files and attributed by their in_toto frames; the hook handler there only yields. Odd shards run the normal build in census mode: hook events (record_reset / record_symlink) are logged with their owner, the evidence lists the distinct interleavings (windows of 12 events) and the maximum number of calls in flight. Hang monitor in both builds: a goroutine that shares nothing with the actors samples the CPU time of the process; a round whose process consumes no CPU for 45 s while calls are outstanding is reported (calls that never return) with the system call every thread is blocked in. " +
+		Rule: "rounds = fresh worker processes (quick 16, thorough 48); round k uses G in {2,4,8,16,32} goroutines and GOMAXPROCS in {2,4,16}; every goroutine owns a generated tree (half with file and directory symlinks, half with 2 MiB CRLF files), keys, a chain directory and metadata files, and runs 1 (quick) / 3 (thorough) times the list LoadMetadata of layout and links (first library operation of the process: cold caches), RecordArtifacts with and without normalisation, Metablock Sign/Dump/Load/Verify and Envelope SetPayload/Sign/Dump/Load/Verify with the file rewritten four times under the same base name in every goroutine's own directory, InTotoRun (vhelper), InTotoRecordStart/Stop, InTotoMatchProducts, InTotoVerify (no inspections; two stray links by unauthorized keys for the first step; layout with its own intermediate CA; the caller's list of additional intermediates is one read-only slice with spare capacity shared by all goroutines), InTotoVerify of nested layouts, RecordArtifacts on a tree with a directory symlink cycle (the error text must be the caller's own), InTotoVerifyWithDirectory (own run dir, globally unique inspection name), SubstituteParameters; then a burst of 24 goroutines verifying the nested chains 12 times each (compared with the sequential result); then the same lists are executed sequentially on identical copies of the data and compared result by result. Even shards run the -race build with GORACE=halt_on_error=0 log_path=...: report blocks are counted from the log files and attributed by their in_toto frames; the hook handler there only yields. Odd shards run the normal build in census mode: hook events (record_reset / record_symlink) are logged with their owner, the evidence lists the distinct interleavings (windows of 12 events) and the maximum number of calls in flight. Hang monitor in both builds: a goroutine that shares nothing with the actors samples the CPU time of the process; a round whose process consumes no CPU for 45 s while calls are outstanding is reported (calls that never return) with the system call every thread is blocked in. " +
 			"non-trivial = a round with >=2 calls in flight; distinct = (mode, round, goroutine, position in its operation list) of the compared concurrent calls, plus (mode, G, GOMAXPROCS, interleaving hash) per round",
 		Assumptions: []string{"inspections of InTotoVerify without run directory use the process cwd and are excluded from 'independent data'; InTotoVerifyWithDirectory drops <inspection>.link into the shared cwd under globally unique names", "the race detector only sees races on executed paths; its silence is 'no report on these executions'"},
 		Workers: func(t string) int {
